@@ -369,5 +369,5 @@ def describe(tier):
         assumptions=['rule files without wildcards, on which first-match and longest-match '
                      'agree', '401/403 on robots.txt: either reading accepted',
                      'agent group = first group naming a token contained in the UA, else *'],
-        time_cap_s=None if tier == 'quick' else 3000,
+        time_cap_s=None if tier == 'quick' else 2400,
     )
